@@ -91,9 +91,13 @@ func verifH_C17_dbs() {
 				verifAssert(err == nil, "create-db-ok")
 				dbs[name] = &verifDBModel{}
 			}
-		case 2, 3: // USE a | b
+		case 2, 3: // USE a | b (database names are case-insensitive: with upper=1 the spelling is a choice)
 			name := []string{"a", "b"}[k-2]
-			err := sess.ExecQuery("USE " + name)
+			spelled := name
+			if verifParam("upper", 0) == 1 && verifChoice("spelling", 2) == 1 {
+				spelled = []string{"A", "B"}[k-2]
+			}
+			err := sess.ExecQuery("USE " + spelled)
 			if _, exists := dbs[name]; exists {
 				verifAssert(err == nil, "use-ok")
 				cur = name
